@@ -464,53 +464,26 @@ def validate_trace(trace_module, trace_file, cfg_text=None, timeout=600, extra_f
     return res
 
 
-def validate_runs(trace_module, trace_file, max_violations=12, timeout=900, reset_ev='Reset'):
-    """Validate a concatenation of runs. When a run violates an invariant it is recorded and removed,
-    and validation resumes so that every run is judged. Returns (violations, total TlcResult stats).
-    A violation is a dict {bad, line, event, run (the Reset event of the run), window}."""
+def validate_runs(trace_module, trace_file, max_violations=25, timeout=1800, reset_ev='Reset'):
+    """Validate a concatenation of runs in one TLC pass. The trace specs are total and judge each run on its
+    own: the first violated predicate of a run is printed by TLC as <<"VIOLATION_AT", line, predicate>>.
+    Returns (violations, stats); a violation is {bad, line, event, run (the Reset event), window}."""
+    res = validate_trace(trace_module, trace_file, timeout=timeout)
+    stats = {'distinct': res.distinct, 'generated': res.generated, 'wall': res.wall}
+    if res.error or res.violated:
+        raise ToolFailure('trace validation failed: %s %s\n%s' % (res.error, res.violated, res.out[-2500:]))
+    hits = re.findall(r'<<"VIOLATION_AT", (\d+), "([^"]*)">>', res.out)
     violations = []
-    stats = {'distinct': 0, 'generated': 0, 'wall': 0.0, 'runs': 0}
-    cur = trace_file
-    tmpfiles = []
-    try:
-        for it in range(max_violations + 1):
-            res = validate_trace(trace_module, cur, timeout=timeout)
-            stats['distinct'] += res.distinct
-            stats['generated'] += res.generated
-            stats['wall'] += res.wall
-            if res.error:
-                raise ToolFailure('trace validation failed: %s\n%s' % (res.error, res.out[-1500:]))
-            if not res.violated:
-                break
-            if res.violated == 'postcondition' or not res.bad_line:
-                raise ToolFailure('trace not consumed / unparsable counterexample:\n' + res.out[-1500:])
-            lines = open(cur).read().splitlines()
-            k = res.bad_line - 1
+    if hits:
+        lines = open(trace_file).read().splitlines()
+        for (ln, bad) in hits[:max_violations]:
+            k = int(ln) - 1
             lo = k
             while lo > 0 and json.loads(lines[lo]).get('ev') != reset_ev:
                 lo -= 1
-            hi = k + 1
-            while hi < len(lines) and json.loads(lines[hi]).get('ev') != reset_ev:
-                hi += 1
-            bad = (res.last_state.get('bad') or '').strip('"')
-            violations.append({'bad': bad, 'line': res.bad_line, 'event': json.loads(lines[k]),
-                               'run': json.loads(lines[lo]), 'window': [json.loads(x) for x in lines[max(lo, k - 12):k + 1]]})
-            if len(violations) >= max_violations:
-                break
-            rest = lines[:lo] + lines[hi:]
-            if not rest:
-                break
-            fd, cur2 = tempfile.mkstemp(prefix='trace.', suffix='.ndjson', dir=os.path.join(BUILD, 'tlc'))
-            with os.fdopen(fd, 'w') as fh:
-                fh.write('\n'.join(rest) + '\n')
-            tmpfiles.append(cur2)
-            cur = cur2
-    finally:
-        for f in tmpfiles:
-            try:
-                os.remove(f)
-            except OSError:
-                pass
+            violations.append({'bad': bad, 'line': int(ln), 'event': json.loads(lines[k]), 'run': json.loads(lines[lo]),
+                               'window': [json.loads(x) for x in lines[max(lo, k - 12):k + 1]]})
+        stats['violating_runs'] = len(hits)
     return violations, stats
 
 
